@@ -28,6 +28,8 @@ META = {
     "level_note": "Trusts the receiver-owner classification tables printed in the evidence (shared families are "
     "discovered by base class). State inside user drops, loaders' backing stores and third-party libraries is outside the claim.",
 }
+META["technique"] += '; must-pass-through of the cache-hit rebinding (shared with C14.R2)'
+META["level_text"] += ' Also decided (R2b): the one in-place update of a shared Template (cache-hit global_data rebinding, a known finding) is unconditional on every path to the hit.'
 
 MUTATORS = {"append", "extend", "insert", "pop", "remove", "clear", "sort", "reverse", "update", "setdefault", "popitem", "add", "discard", "appendleft", "popleft", "move_to_end", "__setitem__", "__delitem__", "difference_update", "intersection_update", "symmetric_difference_update"}
 MEMO_DECORATORS = {"functools.lru_cache", "functools.cache", "functools.cached_property", "lru_cache", "cache", "cached_property"}
